@@ -3,8 +3,8 @@
 IDS=${1:-"C01 C02 C03 C04 C05 C06 C07 C08 C09 C10 C11 C12 C13 C14 C15 C16 C17 C18 C19"}; SEEDS=${2:-"1 2 3"}; TIER=${3:-quick}
 cd "$(dirname "$0")/.."
 for s in $SEEDS; do for x in $IDS; do
-  VERIF_SEED=$s python3 checks/check.py $x --tier $TIER > /tmp/sweep_$x_$s.log 2>&1; rc=$?
-  if [ $rc -ne 0 ] || grep -q '^VIOLATION' /tmp/sweep_$x_$s.log; then echo "ALARM $x seed=$s rc=$rc"; grep -E '^VIOLATION|^  ->' /tmp/sweep_$x_$s.log | head -4; fi
-  rm -f /tmp/sweep_$x_$s.log
+  VERIF_SEED=$s python3 checks/check.py $x --tier $TIER > /tmp/sweep_${x}_${s}.log 2>&1; rc=$?
+  if [ $rc -ne 0 ] || grep -q '^VIOLATION' /tmp/sweep_${x}_${s}.log; then echo "ALARM $x seed=$s rc=$rc"; grep -E '^VIOLATION|^  ->' /tmp/sweep_${x}_${s}.log | head -4; fi
+  rm -f /tmp/sweep_${x}_${s}.log
 done; done
 echo sweep-done
